@@ -224,6 +224,11 @@ def _run_hv(c):
                 h2.harvest_combos({'a': [3]}, verbosity=0)
                 obs['ls_second'] = dsutil.listing(d)
                 obs['second_a'] = sorted(h2.full_ds['a'].values.tolist())
+                # a third session spelled like the first (own engine + engine given per call) must find the file, too
+                h3 = xyz.Harvester(xyz.Runner(lambda a: a * 1.0, var_names='x'), path, engine=c['own'])
+                h3.harvest_combos({'a': [4]}, verbosity=0, **kw)
+                obs['ls_third'] = dsutil.listing(d)
+                obs['third_a'] = sorted(xyz.load_ds(path, engine=c['engine'])['a'].values.tolist())
                 h2.delete_ds()
                 obs['ls_delete'] = dsutil.listing(d)
         except Exception as e:
@@ -358,6 +363,8 @@ def oracle(c, obs):
         if list(obs['ls_save']) != want: return f'saving through a Harvester (own {c["own"]}, call {c["call"]}) wrote {list(obs["ls_save"])}, the documented name is {want}'
         if obs['loaded_a'] != [1, 2]: return 'load_ds by the same name and engine did not give the data back'
         if list(obs['ls_second']) != want or obs['second_a'] != [1, 2, 3]: return f'a new session did not continue from the saved file: files {list(obs["ls_second"])}, a={obs["second_a"]}'
+        if list(obs['ls_third']) != want or obs['third_a'] != [1, 2, 3, 4]:
+            return f'a third session (own engine {c["own"]}, engine per call {c["call"]}) did not continue from the saved file: files {list(obs["ls_third"])}, a={obs["third_a"]}'
         if list(obs['ls_delete']): return f'delete_ds left {list(obs["ls_delete"])}'
         return None
     eng, name = c['engine'], c['name']
